@@ -76,6 +76,9 @@ class BalancedMoveRule(BaseRule):
             #       remaining on the same side of the equation
             if self.has_add_siblings(node):
                 return None
+            # Dividing both sides by zero does not produce an equivalent equation
+            if node.value is None or node.value == 0:
+                return None
 
             return _TYPE_CONST_OF_MULTIPLY
 
